@@ -584,3 +584,350 @@ impl<F: Function> Worker<'_, F> {
         }
     }
 }
+/// the state of the pixel at (ax, ay) while the slab [cz, cz + n) is being worked through from the top, everything at or above zl being done
+pub open spec fn pv(f: Fn_, p0: GeometryPixel, p1: GeometryPixel, ax: int, ay: int, cz: int, n: int, zl: int) -> bool {
+    &&& (p1 == p0
+        || (p0.depth == 0 && zl + 1 <= p1.depth <= cz + n && neg(f, ax, ay, p1.depth - 1) && nrm_is(p1, gnorm(f, ax, ay, p1.depth - 1)))
+        || (p0.depth == 0 && p1.depth == cz + n + 1 && neg(f, ax, ay, cz + n) && p1.normal == p0.normal))
+    &&& forall|k: int| zl <= k < cz + n && #[trigger] neg(f, ax, ay, k) ==> p1.depth >= k + 1
+}
+pub proof fn lemma_pv_start(f: Fn_, p0: GeometryPixel, ax: int, ay: int, cz: int, n: int)
+    ensures pv(f, p0, p0, ax, ay, cz, n, cz + n)
+{ }
+pub proof fn lemma_pv_end(f: Fn_, p0: GeometryPixel, p1: GeometryPixel, ax: int, ay: int, cz: int, n: int)
+    ensures pv(f, p0, p1, ax, ay, cz, n, cz) == vox_ok(f, p0, p1, ax, ay, cz, n)
+{ }
+/// one sub-slab [sz, sz + m) below everything done so far
+pub proof fn lemma_pv_step(f: Fn_, p0: GeometryPixel, pb: GeometryPixel, pa: GeometryPixel, ax: int, ay: int, cz: int, n: int, sz: int, m: int)
+    requires pre_ok(p0, cz, n), cz <= sz, sz + m <= cz + n, m >= 1, pv(f, p0, pb, ax, ay, cz, n, sz + m), vox_ok(f, pb, pa, ax, ay, sz, m)
+    ensures pv(f, p0, pa, ax, ay, cz, n, sz)
+{
+    if pa != pb {
+        // the pixel was empty before the sub-slab, so nothing above it is inside
+        assert(pb.depth == 0);
+        assert(pb == p0);
+        if pa.depth == sz + m + 1 && sz + m < cz + n {
+            assert(neg(f, ax, ay, sz + m));
+        }
+    }
+    assert forall|k: int| sz <= k < cz + n && #[trigger] neg(f, ax, ay, k) implies pa.depth >= k + 1 by {
+        if k >= sz + m { assert(pb.depth >= k + 1); }
+    }
+}
+/// what the sub-slab needs of the pixel
+pub proof fn lemma_pv_pre(f: Fn_, p0: GeometryPixel, pb: GeometryPixel, ax: int, ay: int, cz: int, n: int, sz: int, m: int)
+    requires pre_ok(p0, cz, n), cz <= sz, sz + m <= cz + n, pv(f, p0, pb, ax, ay, cz, n, sz + m)
+    ensures pre_ok(pb, sz, m)
+{ }
+/// the simplified function g may stand for f on the tile's box
+pub proof fn lemma_vox_transfer(g: Fn_, f: Fn_, p0: GeometryPixel, p1: GeometryPixel, ax: int, ay: int, cx: int, cy: int, cz: int, n: int, bx: Interval, by: Interval, bz: Interval)
+    requires vox_ok(g, p0, p1, ax, ay, cz, n), in_tile(ax, ay, cx, cy, n), cx >= 0, cy >= 0, cz >= 0, n >= 1, cx + n <= 16777216, cy + n <= 16777216, cz + n <= 16777216,
+        g != f ==> agree_on(g, f, bx, by, bz),
+        bx.lower == f_of(cx as usize), bx.upper == f_of((cx + n) as usize), by.lower == f_of(cy as usize), by.upper == f_of((cy + n) as usize), bz.lower == f_of(cz as usize), bz.upper == f_of((cz + n) as usize),
+    ensures vox_ok(f, p0, p1, ax, ay, cz, n)
+{
+    if g != f {
+        ax_cast_mono(cx as usize, ax as usize); ax_cast_mono(ax as usize, (cx + n) as usize);
+        ax_cast_mono(cy as usize, ay as usize); ax_cast_mono(ay as usize, (cy + n) as usize);
+        assert forall|k: int| cz <= k <= cz + n implies #[trigger] neg(g, ax, ay, k) == neg(f, ax, ay, k) && gnorm(g, ax, ay, k) == gnorm(f, ax, ay, k) by {
+            ax_cast_mono(cz as usize, k as usize); ax_cast_mono(k as usize, (cz + n) as usize);
+            assert(mem(f_of(ax as usize), bx) && mem(f_of(ay as usize), by) && mem(f_of(k as usize), bz));
+            assert(fval(g, f_of(ax as usize), f_of(ay as usize), f_of(k as usize)) == fval(f, f_of(ax as usize), f_of(ay as usize), f_of(k as usize)));
+            assert(geval(g, seed_x(f_of(ax as usize)), seed_y(f_of(ay as usize)), seed_z(f_of(k as usize))) == geval(f, seed_x(f_of(ax as usize)), seed_y(f_of(ay as usize)), seed_z(f_of(k as usize))));
+        }
+        if p1 != p0 {
+            if p1.depth == cz + n + 1 { assert(neg(g, ax, ay, cz + n) == neg(f, ax, ay, cz + n)); }
+            else { assert(neg(g, ax, ay, p1.depth - 1) == neg(f, ax, ay, p1.depth - 1)); }
+        }
+        assert forall|k: int| cz <= k < cz + n && #[trigger] neg(f, ax, ay, k) implies p1.depth >= k + 1 by { assert(neg(g, ax, ay, k)); }
+    }
+}
+
+/// a voxel of the slab (or of the voxel row just above it) is a point of the tile's box
+pub proof fn lemma_in_box(cx: int, cy: int, cz: int, n: int, ax: int, ay: int, k: int, bx: Interval, by: Interval, bz: Interval)
+    requires in_tile(ax, ay, cx, cy, n), cz <= k <= cz + n, cx >= 0, cy >= 0, cz >= 0, n >= 1, cx + n <= 16777216, cy + n <= 16777216, cz + n <= 16777216,
+        bx.lower == f_of(cx as usize), bx.upper == f_of((cx + n) as usize), by.lower == f_of(cy as usize), by.upper == f_of((cy + n) as usize), bz.lower == f_of(cz as usize), bz.upper == f_of((cz + n) as usize),
+    ensures mem(f_of(ax as usize), bx), mem(f_of(ay as usize), by), mem(f_of(k as usize), bz)
+{
+    ax_cast_mono(cx as usize, ax as usize); ax_cast_mono(ax as usize, (cx + n) as usize);
+    ax_cast_mono(cy as usize, ay as usize); ax_cast_mono(ay as usize, (cy + n) as usize);
+    ax_cast_mono(cz as usize, k as usize); ax_cast_mono(k as usize, (cz + n) as usize);
+}
+
+impl<F: Function> Worker<'_, F> {
+    /// Returns the data offset of a row within a subtile
+    pub(crate) fn tile_row_offset(&self, tile: Tile<3>, row: usize) -> (r: usize)
+        requires self.tile_sizes.0@.len() >= 1, self.tile_sizes.0@[0] >= 1, self.tile_sizes.0@[0] * self.tile_sizes.0@[0] <= usize::MAX, tile.corner.y + row <= usize::MAX,
+        ensures r == off(self.tile_sizes.0@[0] as int, tile.corner.x as int, tile.corner.y + row)
+    {
+        self.tile_sizes.pixel_offset(tile.add(Vector2::new(0, row)))
+    }
+
+    /// Render a single tile
+    ///
+    /// Returns `true` if we should keep rendering, `false` otherwise
+    fn render_tile_recurse(
+        &mut self,
+        shape: &mut RenderHandle<F>,
+        depth: usize,
+        tile: Tile<3>,
+    ) -> (r: bool)
+        requires wwf(old(self)), depth < old(self).tile_sizes.0@.len(),
+            in_root(t0(old(self)), tile.corner.x as int, tile.corner.y as int, old(self).tile_sizes.0@[depth as int] as int),
+            tile.corner.x + old(self).tile_sizes.0@[depth as int] <= 16777216, tile.corner.y + old(self).tile_sizes.0@[depth as int] <= 16777216, tile.corner.z + old(self).tile_sizes.0@[depth as int] <= 16777216,
+            tile_pre(old(self).out.data@, t0(old(self)), tile.corner.x as int, tile.corner.y as int, tile.corner.z as int, old(self).tile_sizes.0@[depth as int] as int),
+        ensures wwf(final(self)), final(self).tile_sizes == old(self).tile_sizes, final(self).image_size == old(self).image_size,
+            final(shape).f() == old(shape).f(),
+            tile_ok(old(shape).f(), old(self).out.data@, final(self).out.data@, t0(old(self)), tile.corner.x as int, tile.corner.y as int, tile.corner.z as int, old(self).tile_sizes.0@[depth as int] as int),
+            frame(old(self).out.data@, final(self).out.data@, t0(old(self)), tile.corner.x as int, tile.corner.y as int, old(self).tile_sizes.0@[depth as int] as int),
+            // `false`: every pixel of the tile is set from at or above the top of this slab
+            !r ==> forall|ax: int, ay: int| in_tile(ax, ay, tile.corner.x as int, tile.corner.y as int, old(self).tile_sizes.0@[depth as int] as int)
+                ==> (#[trigger] final(self).out.data@[off(t0(old(self)), ax, ay)]).depth >= tile.corner.z + old(self).tile_sizes.0@[depth as int] + 1,
+        decreases old(self).tile_sizes.0@.len() - depth
+    {
+        // Early exit if every single pixel is filled
+        let tile_size = *self.tile_sizes.index(depth);
+        let ghost t_ = t0(old(self));
+        let ghost cx_ = tile.corner.x as int;
+        let ghost cy_ = tile.corner.y as int;
+        let ghost cz_ = tile.corner.z as int;
+        let ghost n_ = tile_size as int;
+        let ghost f_ = shape.f();
+        let ghost img0_ = self.out.data@;
+        proof {
+            lemma_sizes_desc(self.tile_sizes.0@, 0, depth as int);
+            assert(self.tile_sizes.0@[depth as int] >= 1);
+            assert forall|ax: int, ay: int| in_tile(ax, ay, cx_, cy_, n_) implies same_root(t_, cx_, cy_, ax, ay) && 0 <= off(t_, ax, ay) < t_ * t_ by { lemma_off(t_, cx_, cy_, n_, ax, ay); }
+        }
+        let fill_z = to_u32(tile.corner.z + tile_size + 1);
+        let mut all_ = true;   // R-all
+        for y in 0..tile_size
+            invariant self == old(self), n_ == tile_size, t_ == t0(self), wwf(self), cx_ == tile.corner.x, cy_ == tile.corner.y, in_root(t_, cx_, cy_, n_), fill_z == cz_ + n_ + 1, cy_ + n_ <= 16777216,
+                all_ <==> forall|ax: int, ay: int| in_tile(ax, ay, cx_, cy_, n_) && ay < cy_ + y ==> (#[trigger] self.out.data@[off(t_, ax, ay)]).depth >= fill_z,
+        {
+            let i = self.tile_row_offset(tile, y);
+            for x in 0..tile_size
+                invariant self == old(self), n_ == tile_size, t_ == t0(self), wwf(self), cx_ == tile.corner.x, cy_ == tile.corner.y, in_root(t_, cx_, cy_, n_), fill_z == cz_ + n_ + 1, cy_ + n_ <= 16777216, 0 <= y < n_,
+                    i == off(t_, cx_, cy_ + y),
+                    all_ <==> forall|ax: int, ay: int| in_tile(ax, ay, cx_, cy_, n_) && (ay < cy_ + y || (ay == cy_ + y && ax < cx_ + x)) ==> (#[trigger] self.out.data@[off(t_, ax, ay)]).depth >= fill_z,
+            {
+                proof { lemma_off(t_, cx_, cy_, n_, cx_ + x, cy_ + y); lemma_off(t_, cx_, cy_, n_, cx_, cy_ + y); assert(i + x == off(t_, cx_ + x, cy_ + y)); }
+                if !(self.out.data[i + x].depth >= fill_z) {
+                    all_ = false;
+                    proof { assert(in_tile(cx_ + x, cy_ + y, cx_, cy_, n_)); }
+                }
+            }
+        }
+        if all_ {
+            proof {
+                assert forall|ax: int, ay: int| in_tile(ax, ay, cx_, cy_, n_) implies vox_ok(f_, img0_[off(t_, ax, ay)], #[trigger] img0_[off(t_, ax, ay)], ax, ay, cz_, n_) by {
+                    assert(img0_[off(t_, ax, ay)].depth >= fill_z);
+                }
+            }
+            return false;
+        }
+
+        let base = cast_pt3(tile.corner);   // R-cast
+        let x = Interval::new(base.x, add_f32(base.x, cast_f32(tile_size)));
+        let y = Interval::new(base.y, add_f32(base.y, cast_f32(tile_size)));
+        let z = Interval::new(base.z, add_f32(base.z, cast_f32(tile_size)));
+        proof {
+            ax_add_cast(tile.corner.x, tile_size); ax_add_cast(tile.corner.y, tile_size); ax_add_cast(tile.corner.z, tile_size);
+        }
+
+        let (i, trace) = self
+            .eval_interval
+            .eval_with_transform_and_vars(
+                shape.i_tape(&mut self.tape_storage),
+                x,
+                y,
+                z,
+                &self.transform,
+                self.vars,
+            )
+            .unwrap();
+
+        // Return early if this tile is completely empty or full, returning
+        // `data_interval` to scratch memory for reuse.
+        proof { ax_cmp(i.upper, 0.0f32); ax_cmp(i.lower, 0.0f32); }
+        if i.upper() < 0.0 {
+            for y in 0..tile_size
+                invariant self.tile_sizes == old(self).tile_sizes, self.image_size == old(self).image_size, self.scratch == old(self).scratch, self.tile_sizes.wf(), t_ == self.tile_sizes.0@[0], self.out.data@.len() == t_ * t_, img0_.len() == t_ * t_,
+                    cx_ == tile.corner.x, cy_ == tile.corner.y, n_ == tile_size, in_root(t_, cx_, cy_, n_), n_ >= 1, fill_z == cz_ + n_ + 1, cy_ + n_ <= 16777216,
+                    forall|ax: int, ay: int| in_tile(ax, ay, cx_, cy_, n_) ==> same_root(t_, cx_, cy_, ax, ay),
+                    forall|ax: int, ay: int| in_tile(ax, ay, cx_, cy_, n_) && ay < cy_ + y ==> #[trigger] self.out.data@[off(t_, ax, ay)] == (GeometryPixel { normal: img0_[off(t_, ax, ay)].normal, depth: if img0_[off(t_, ax, ay)].depth >= fill_z { img0_[off(t_, ax, ay)].depth } else { fill_z } }),
+                    forall|ax: int, ay: int| same_root(t_, cx_, cy_, ax, ay) && !(in_tile(ax, ay, cx_, cy_, n_) && ay < cy_ + y) ==> #[trigger] self.out.data@[off(t_, ax, ay)] == img0_[off(t_, ax, ay)],
+            {
+                let i = self.tile_row_offset(tile, y);
+                for x in 0..tile_size
+                    invariant self.tile_sizes == old(self).tile_sizes, self.image_size == old(self).image_size, self.scratch == old(self).scratch, self.tile_sizes.wf(), t_ == self.tile_sizes.0@[0], self.out.data@.len() == t_ * t_, img0_.len() == t_ * t_,
+                        cx_ == tile.corner.x, cy_ == tile.corner.y, n_ == tile_size, in_root(t_, cx_, cy_, n_), n_ >= 1, fill_z == cz_ + n_ + 1, cy_ + n_ <= 16777216, 0 <= y < n_, i == off(t_, cx_, cy_ + y),
+                        forall|ax: int, ay: int| in_tile(ax, ay, cx_, cy_, n_) ==> same_root(t_, cx_, cy_, ax, ay),
+                        forall|ax: int, ay: int| in_tile(ax, ay, cx_, cy_, n_) && (ay < cy_ + y || (ay == cy_ + y && ax < cx_ + x)) ==> #[trigger] self.out.data@[off(t_, ax, ay)] == (GeometryPixel { normal: img0_[off(t_, ax, ay)].normal, depth: if img0_[off(t_, ax, ay)].depth >= fill_z { img0_[off(t_, ax, ay)].depth } else { fill_z } }),
+                        forall|ax: int, ay: int| same_root(t_, cx_, cy_, ax, ay) && !(in_tile(ax, ay, cx_, cy_, n_) && (ay < cy_ + y || (ay == cy_ + y && ax < cx_ + x))) ==> #[trigger] self.out.data@[off(t_, ax, ay)] == img0_[off(t_, ax, ay)],
+                {
+                    proof {
+                        lemma_off(t_, cx_, cy_, n_, cx_ + x, cy_ + y); lemma_off(t_, cx_, cy_, n_, cx_, cy_ + y); assert(i + x == off(t_, cx_ + x, cy_ + y));
+                        assert forall|ax: int, ay: int| same_root(t_, cx_, cy_, ax, ay) && (ax != cx_ + x || ay != cy_ + y) implies #[trigger] off(t_, ax, ay) != off(t_, cx_ + x, cy_ + y) by {
+                            if off(t_, ax, ay) == off(t_, cx_ + x, cy_ + y) { lemma_off_inj(t_, cx_, cy_, ax, ay, cx_ + x, cy_ + y); }
+                        }
+                    }
+                    self.out.data[i + x].depth = max_u32(self.out.data[i + x].depth, fill_z);   // R-minmax
+                }
+            }
+            proof {
+                assert forall|ax: int, ay: int| in_tile(ax, ay, cx_, cy_, n_) implies vox_ok(f_, img0_[off(t_, ax, ay)], #[trigger] self.out.data@[off(t_, ax, ay)], ax, ay, cz_, n_) by {
+                    lemma_in_box(cx_, cy_, cz_, n_, ax, ay, cz_ + n_, x, y, z);
+                    assert(pre_ok(img0_[off(t_, ax, ay)], cz_, n_));
+                    let v = fval(f_, f_of(ax as usize), f_of(ay as usize), f_of((cz_ + n_) as usize));
+                    assert(flt(v, 0.0f32));
+                }
+            }
+            return false; // completely full, stop rendering
+        } else if i.lower() > 0.0 {
+            proof {
+                assert forall|ax: int, ay: int| in_tile(ax, ay, cx_, cy_, n_) implies vox_ok(f_, img0_[off(t_, ax, ay)], #[trigger] img0_[off(t_, ax, ay)], ax, ay, cz_, n_) by {
+                    assert forall|k: int| cz_ <= k < cz_ + n_ implies !neg(f_, ax, ay, k) by {
+                        lemma_in_box(cx_, cy_, cz_, n_, ax, ay, k, x, y, z);
+                        let v = fval(f_, f_of(ax as usize), f_of(ay as usize), f_of(k as usize));
+                        assert(flt(0.0f32, v));
+                        ax_cmp(v, 0.0f32);
+                    }
+                }
+            }
+            return true; // complete empty, keep going
+        }
+
+        // Calculate a simplified tape based on the trace
+        let sub_tape = if let Some(trace) = trace.as_ref() {
+            shape.simplify(
+                trace,
+                &mut self.workspace,
+                &mut self.shape_storage,
+                &mut self.tape_storage,
+            )
+        } else {
+            shape
+        };
+        let ghost g_ = sub_tape.f();
+        proof { assert(g_ != f_ ==> agree_on(g_, f_, x, y, z)); }
+
+        // Recurse!
+        if let Some(next_tile_size) = self.tile_sizes.get(depth + 1) {
+            let n = tile_size / next_tile_size;
+            let ghost m_ = next_tile_size as int;
+            proof {
+                assert(step_ok(self.tile_sizes.0@, depth as int));
+                assert(self.tile_sizes.0@[depth + 1] >= 1);
+                vstd::arithmetic::div_mod::lemma_fundamental_div_mod(n_, m_);
+                assert(n * m_ == n_) by (nonlinear_arith) requires n_ == m_ * (n as int) + 0;
+                assert(0 * m_ == 0);
+            }
+
+            for j in 0..n
+                invariant wwf(self), self.tile_sizes == old(self).tile_sizes, self.image_size == old(self).image_size, t_ == self.tile_sizes.0@[0], img0_.len() == t_ * t_,
+                    cx_ == tile.corner.x, cy_ == tile.corner.y, cz_ == tile.corner.z, n_ == tile_size, in_root(t_, cx_, cy_, n_), cx_ + n_ <= 16777216, cy_ + n_ <= 16777216, cz_ + n_ <= 16777216,
+                    m_ == next_tile_size, m_ == self.tile_sizes.0@[depth + 1], m_ >= 1, n * m_ == n_, depth + 1 < self.tile_sizes.0@.len(), sub_tape.f() == g_, n_ >= 1,
+                    tile_pre(img0_, t_, cx_, cy_, cz_, n_),
+                    forall|ax: int, ay: int| in_tile(ax, ay, cx_, cy_, n_) ==> same_root(t_, cx_, cy_, ax, ay),
+                    forall|ax: int, ay: int| in_tile(ax, ay, cx_, cy_, n_) && ay < cy_ + j * m_ ==> vox_ok(g_, img0_[off(t_, ax, ay)], #[trigger] self.out.data@[off(t_, ax, ay)], ax, ay, cz_, n_),
+                    forall|ax: int, ay: int| same_root(t_, cx_, cy_, ax, ay) && !(in_tile(ax, ay, cx_, cy_, n_) && ay < cy_ + j * m_) ==> #[trigger] self.out.data@[off(t_, ax, ay)] == img0_[off(t_, ax, ay)],
+            {
+                proof { assert((j + 1) * m_ <= n * m_) by (nonlinear_arith) requires 0 <= j < n, m_ >= 1; assert((j + 1) * m_ == j * m_ + m_) by (nonlinear_arith); assert(j * m_ >= 0) by (nonlinear_arith) requires j >= 0, m_ >= 1; }
+                for i in 0..n
+                    invariant wwf(self), self.tile_sizes == old(self).tile_sizes, self.image_size == old(self).image_size, t_ == self.tile_sizes.0@[0], img0_.len() == t_ * t_,
+                        cx_ == tile.corner.x, cy_ == tile.corner.y, cz_ == tile.corner.z, n_ == tile_size, in_root(t_, cx_, cy_, n_), cx_ + n_ <= 16777216, cy_ + n_ <= 16777216, cz_ + n_ <= 16777216,
+                        m_ == next_tile_size, m_ == self.tile_sizes.0@[depth + 1], m_ >= 1, n * m_ == n_, depth + 1 < self.tile_sizes.0@.len(), sub_tape.f() == g_, n_ >= 1,
+                        0 <= j < n, (j + 1) * m_ <= n_, (j + 1) * m_ == j * m_ + m_, j * m_ >= 0,
+                        tile_pre(img0_, t_, cx_, cy_, cz_, n_),
+                        forall|ax: int, ay: int| in_tile(ax, ay, cx_, cy_, n_) ==> same_root(t_, cx_, cy_, ax, ay),
+                        forall|ax: int, ay: int| in_tile(ax, ay, cx_, cy_, n_) && (ay < cy_ + j * m_ || (ay < cy_ + (j + 1) * m_ && ax < cx_ + i * m_)) ==> vox_ok(g_, img0_[off(t_, ax, ay)], #[trigger] self.out.data@[off(t_, ax, ay)], ax, ay, cz_, n_),
+                        forall|ax: int, ay: int| same_root(t_, cx_, cy_, ax, ay) && !(in_tile(ax, ay, cx_, cy_, n_) && (ay < cy_ + j * m_ || (ay < cy_ + (j + 1) * m_ && ax < cx_ + i * m_))) ==> #[trigger] self.out.data@[off(t_, ax, ay)] == img0_[off(t_, ax, ay)],
+                {
+                    proof {
+                        assert((i + 1) * m_ <= n * m_) by (nonlinear_arith) requires 0 <= i < n, m_ >= 1; assert((i + 1) * m_ == i * m_ + m_) by (nonlinear_arith); assert(i * m_ >= 0) by (nonlinear_arith) requires i >= 0, m_ >= 1;
+                        lemma_mod_shift(cx_, i * m_, t_); lemma_mod_shift(cy_, j * m_, t_);
+                        assert(n * m_ == (n as int) * m_);
+                    }
+                    let ghost sx_ = cx_ + i * m_;
+                    let ghost sy_ = cy_ + j * m_;
+                    proof {
+                        assert forall|ax: int, ay: int| in_tile(ax, ay, sx_, sy_, m_) implies in_tile(ax, ay, cx_, cy_, n_) && pv(g_, img0_[off(t_, ax, ay)], #[trigger] self.out.data@[off(t_, ax, ay)], ax, ay, cz_, n_, cz_ + n * m_) by {
+                            lemma_pv_start(g_, img0_[off(t_, ax, ay)], ax, ay, cz_, n_);
+                        }
+                    }
+                    let mut k_ = n;   // R-revrange
+                    while k_ > 0
+                        invariant 0 <= k_ <= n, wwf(self), self.tile_sizes == old(self).tile_sizes, self.image_size == old(self).image_size, t_ == self.tile_sizes.0@[0], img0_.len() == t_ * t_,
+                            cx_ == tile.corner.x, cy_ == tile.corner.y, cz_ == tile.corner.z, n_ == tile_size, in_root(t_, cx_, cy_, n_), cx_ + n_ <= 16777216, cy_ + n_ <= 16777216, cz_ + n_ <= 16777216,
+                            m_ == next_tile_size, m_ == self.tile_sizes.0@[depth + 1], m_ >= 1, n * m_ == n_, depth + 1 < self.tile_sizes.0@.len(), sub_tape.f() == g_, n_ >= 1,
+                            0 <= j < n, (j + 1) * m_ <= n_, (j + 1) * m_ == j * m_ + m_, j * m_ >= 0, 0 <= i < n, (i + 1) * m_ <= n_, (i + 1) * m_ == i * m_ + m_, i * m_ >= 0,
+                            sx_ == cx_ + i * m_, sy_ == cy_ + j * m_, in_root(t_, sx_, sy_, m_), sx_ / t_ == cx_ / t_, sy_ / t_ == cy_ / t_,
+                            tile_pre(img0_, t_, cx_, cy_, cz_, n_),
+                            forall|ax: int, ay: int| in_tile(ax, ay, cx_, cy_, n_) ==> same_root(t_, cx_, cy_, ax, ay),
+                            forall|ax: int, ay: int| in_tile(ax, ay, sx_, sy_, m_) ==> in_tile(ax, ay, cx_, cy_, n_) && pv(g_, img0_[off(t_, ax, ay)], #[trigger] self.out.data@[off(t_, ax, ay)], ax, ay, cz_, n_, cz_ + k_ * m_),
+                            forall|ax: int, ay: int| in_tile(ax, ay, cx_, cy_, n_) && (ay < cy_ + j * m_ || (ay < cy_ + (j + 1) * m_ && ax < cx_ + i * m_)) ==> vox_ok(g_, img0_[off(t_, ax, ay)], #[trigger] self.out.data@[off(t_, ax, ay)], ax, ay, cz_, n_),
+                            forall|ax: int, ay: int| same_root(t_, cx_, cy_, ax, ay) && !(in_tile(ax, ay, cx_, cy_, n_) && (ay < cy_ + j * m_ || (ay < cy_ + (j + 1) * m_ && ax < cx_ + i * m_))) && !in_tile(ax, ay, sx_, sy_, m_) ==> #[trigger] self.out.data@[off(t_, ax, ay)] == img0_[off(t_, ax, ay)],
+                        decreases k_
+                    {
+                        k_ -= 1;
+                        let k = k_;
+                        let ghost img1_ = self.out.data@;
+                        let ghost sz_ = cz_ + k * m_;
+                        proof {
+                            assert((k + 1) * m_ <= n * m_) by (nonlinear_arith) requires 0 <= k < n, m_ >= 1; assert((k + 1) * m_ == k * m_ + m_) by (nonlinear_arith); assert(k * m_ >= 0) by (nonlinear_arith) requires k >= 0, m_ >= 1;
+                            assert forall|ax: int, ay: int| in_tile(ax, ay, sx_, sy_, m_) implies pre_ok(#[trigger] img1_[off(t_, ax, ay)], sz_, m_) by {
+                                assert(pre_ok(img0_[off(t_, ax, ay)], cz_, n_));
+                                lemma_pv_pre(g_, img0_[off(t_, ax, ay)], img1_[off(t_, ax, ay)], ax, ay, cz_, n_, sz_, m_);
+                            }
+                        }
+                        self.render_tile_recurse(
+                            sub_tape,
+                            depth + 1,
+                            Tile::new(
+                                pt3_add(tile.corner, vec3_scale(Vector3::new(i, j, k), next_tile_size)),
+                            ),
+                        );
+                        proof {
+                            assert(tile_ok(g_, img1_, self.out.data@, t_, sx_, sy_, sz_, m_));
+                            assert(frame(img1_, self.out.data@, t_, sx_, sy_, m_));
+                            assert forall|ax: int, ay: int| same_root(t_, cx_, cy_, ax, ay) && !in_tile(ax, ay, sx_, sy_, m_) implies #[trigger] self.out.data@[off(t_, ax, ay)] == img1_[off(t_, ax, ay)] by {
+                                assert(same_root(t_, sx_, sy_, ax, ay));
+                            }
+                            assert forall|ax: int, ay: int| in_tile(ax, ay, sx_, sy_, m_) implies pv(g_, img0_[off(t_, ax, ay)], #[trigger] self.out.data@[off(t_, ax, ay)], ax, ay, cz_, n_, sz_) by {
+                                assert(pre_ok(img0_[off(t_, ax, ay)], cz_, n_));
+                                assert(vox_ok(g_, img1_[off(t_, ax, ay)], self.out.data@[off(t_, ax, ay)], ax, ay, sz_, m_));
+                                lemma_pv_step(g_, img0_[off(t_, ax, ay)], img1_[off(t_, ax, ay)], self.out.data@[off(t_, ax, ay)], ax, ay, cz_, n_, sz_, m_);
+                            }
+                            assert forall|ax: int, ay: int| in_tile(ax, ay, cx_, cy_, n_) && (ay < cy_ + j * m_ || (ay < cy_ + (j + 1) * m_ && ax < cx_ + i * m_)) implies vox_ok(g_, img0_[off(t_, ax, ay)], #[trigger] self.out.data@[off(t_, ax, ay)], ax, ay, cz_, n_) by {
+                                assert(!in_tile(ax, ay, sx_, sy_, m_));
+                                assert(self.out.data@[off(t_, ax, ay)] == img1_[off(t_, ax, ay)]);
+                            }
+                        }
+                    }
+                    proof {
+                        assert(0 * m_ == 0);
+                        assert forall|ax: int, ay: int| in_tile(ax, ay, cx_, cy_, n_) && (ay < cy_ + j * m_ || (ay < cy_ + (j + 1) * m_ && ax < cx_ + (i + 1) * m_)) implies vox_ok(g_, img0_[off(t_, ax, ay)], #[trigger] self.out.data@[off(t_, ax, ay)], ax, ay, cz_, n_) by {
+                            if in_tile(ax, ay, sx_, sy_, m_) { lemma_pv_end(g_, img0_[off(t_, ax, ay)], self.out.data@[off(t_, ax, ay)], ax, ay, cz_, n_); }
+                        }
+                    }
+                }
+            }
+        } else {
+            proof {
+                // the early exit did not fire: some pixel is below the fill level, hence empty
+                let (ax, ay) = choose|ax: int, ay: int| in_tile(ax, ay, cx_, cy_, n_) && !((#[trigger] img0_[off(t_, ax, ay)]).depth >= fill_z);
+                assert(pre_ok(img0_[off(t_, ax, ay)], cz_, n_));
+                assert(img0_[off(t_, ax, ay)].depth == 0);
+            }
+            self.render_tile_pixels(sub_tape, tile_size, tile);
+        };
+        proof {
+            assert forall|ax: int, ay: int| in_tile(ax, ay, cx_, cy_, n_) implies vox_ok(f_, img0_[off(t_, ax, ay)], #[trigger] self.out.data@[off(t_, ax, ay)], ax, ay, cz_, n_) by {
+                lemma_vox_transfer(g_, f_, img0_[off(t_, ax, ay)], self.out.data@[off(t_, ax, ay)], ax, ay, cx_, cy_, cz_, n_, x, y, z);
+            }
+        }
+        // TODO recycle something here?
+        true // keep going
+    }
+}
